@@ -125,7 +125,12 @@ def _run_one(repo, u, target, work, timeout_s):
     elif "VERIFICATION:- FAILED" in out:
         fc = [x for x in re.findall(r"Failed Checks: (.*)", out)]
         real = [x for x in fc if "unwinding assertion" not in x]
-        if fc and not real:
+        # a construct Kani cannot model (foreign function, inline asm, ...) is a tool limit, not a refutation
+        unsupported = [x for x in real if "is not currently supported" in x or "not supported by Kani" in x]
+        real = [x for x in real if x not in unsupported]
+        if unsupported and not real:
+            r.update(status="undecided", why="the code under test uses a construct Kani does not model: " + unsupported[0][:200])
+        elif fc and not real:
             r.update(status="undecided", why="unwinding bound too small: " + fc[0])
         elif re.search(r"out of memory|std::bad_alloc|Killed", out) and not real:
             r.update(status="undecided", why="out of memory")
